@@ -1111,8 +1111,7 @@ func (x *Exec) compileCall(env *Env, e *SCall) Value {
 			f, _ := new(big.Float).SetInt(v).Float64()
 			return TV{fpLit(f), tFloat}
 		}
-		x.declareI2F()
-		return TV{App("i2f", SF64, a.T), tFloat}
+		return TV{x.i2fTerm(a.T), tFloat}
 	case "int":
 		a := argTV(0)
 		if a.T.Sort == SInt {
